@@ -55,7 +55,8 @@ PROPS["C01"] = {
 
 PROPS["C10"] = {
     "title": "Report metrics equal an exact reference computation, in any order, incrementally",
-    "units": [{"name": "metrics", "pkg": "lib", "run": "^TestC10"}],
+    "units": [{"name": "metrics", "pkg": "lib", "run": "^TestC10"},
+              {"name": "reportcmd", "pkg": "main", "run": "^TestC10", "shards_quick": 2, "shards_thorough": 8}],
     "rule": "rapid draws result multisets (0..300 results, thorough also 1e4..1e5): equal/increasing/reversed/shuffled/"
             "clustered timestamps with duplicates, zero/tiny/typical/huge latencies (sum < 2^63), status 0 and 100..599 "
             "with C06-consistent error texts from a small pool, byte counts up to 2^40; a drawn permutation of the order "
@@ -316,7 +317,7 @@ PROPS["C03"] = {
 PROPS["C04"] = {
     "title": "The attack loop obeys its pacer and its duration",
     "units": [{"name": "virtual", "pkg": "libsync", "go": "go1.26.8", "run": "^TestC04"},
-              {"name": "realtime", "pkg": "lib", "run": "^TestC04", "shards_quick": 2, "shards_thorough": 8, "disabled": True}],
+              {"name": "cli", "pkg": "main", "run": "^TestC04", "shards_quick": 2, "shards_thorough": 8}],
     "rule": "rapid draws adversarial scripted pacers (1..120 answers: negative, zero, ns, ms, seconds..minutes, around and "
             "beyond the duration; then stop), durations (none or 1 ns..10 min), (workers, max-workers) in 0..8 x 1..8, "
             "per-hit response latencies 0..minutes and consumer delays; the attack runs to its end inside a "
